@@ -293,6 +293,9 @@ def check_recon(case, rec=None):
     r2 = rmax * np.sqrt(rng.random_sample())
     a2 = rng.uniform(0, 2 * np.pi)
     sino2 = sino_of(r2 * np.cos(a2), r2 * np.sin(a2))
+    if case["seed"] % 2:
+        # a reflection seen in part of the projections only: empty columns in one of the two sinograms
+        sino2[:, rng.random_sample(sino2.shape[1]) < 0.4] = 0.0
     al, be = 1.7, -0.6
     ok, rb = guard(run_iradon, sino2, omega, int(pad), shift)
     ok2, rc = guard(run_iradon, al * sino + be * sino2, omega, int(pad), shift)
